@@ -127,4 +127,31 @@ def writesCovered (reset : Assigns) (written exempt : List String) : Bool :=
 def preFixGeneratorInit : Assigns := [("unsupported_messages", "[]"), ("_next_name", "name_sequence('_t')")]
 def preFixGeneratorReset : Assigns := [("unsupported_messages", "[]")]
 
+/-- the audited allow-list of state that is shared by the whole process and written after import (compared with the list
+    regenerated from the source by `decide`; a NEW process-wide cache or registry breaks the build and sends the check into
+    its history / call-order search).  Audit: `_Dialect._classes` is the dialect registry (keyed by dialect name, one class
+    per key, filled on import of the dialect module); `_DISPATCH_CACHE` is keyed by the generator class and holds a pure
+    function of that class; `optimizer.__getattr__` fills the module namespace with lazily imported rules; the `cls.*`
+    entries run once per class in `__init_subclass__` (class construction).  None of them is keyed by anything coarser
+    than the identity of what it stores. -/
+def expectedProcessWideState : List (String × String × String × String) := [
+  ("sqlglot/dialects/dialect.py", "cls._classes", "class-attr", "_Dialect.__new__"),
+  ("sqlglot/dialects/dialect.py", "cls._classes", "class-attr", "_Dialect._try_load"),
+  ("sqlglot/expressions/core.py", "cls.key", "class-attr", "Expr.__init_subclass__"),
+  ("sqlglot/expressions/core.py", "cls.required_args", "class-attr", "Expr.__init_subclass__"),
+  ("sqlglot/generator.py", "_DISPATCH_CACHE", "module-global", "Generator.__init__"),
+  ("sqlglot/generator.py", "_DISPATCH_CACHE", "named-cache", "<module>"),
+  ("sqlglot/optimizer/__init__.py", "globals()", "module-namespace", "__getattr__"),
+  ("sqlglot/tokens.py", "cls.BYTE_STRING_ESCAPES", "class-attr", "_TokenizerBase.__init_subclass__"),
+  ("sqlglot/tokens.py", "cls._BYTE_STRING_ESCAPES", "class-attr", "_TokenizerBase.__init_subclass__"),
+  ("sqlglot/tokens.py", "cls._COMMENTS", "class-attr", "_TokenizerBase.__init_subclass__"),
+  ("sqlglot/tokens.py", "cls._ESCAPE_FOLLOW_CHARS", "class-attr", "_TokenizerBase.__init_subclass__"),
+  ("sqlglot/tokens.py", "cls._FORMAT_STRINGS", "class-attr", "_TokenizerBase.__init_subclass__"),
+  ("sqlglot/tokens.py", "cls._IDENTIFIERS", "class-attr", "_TokenizerBase.__init_subclass__"),
+  ("sqlglot/tokens.py", "cls._IDENTIFIER_ESCAPES", "class-attr", "_TokenizerBase.__init_subclass__"),
+  ("sqlglot/tokens.py", "cls._KEYWORD_TRIE", "class-attr", "_TokenizerBase.__init_subclass__"),
+  ("sqlglot/tokens.py", "cls._QUOTES", "class-attr", "_TokenizerBase.__init_subclass__"),
+  ("sqlglot/tokens.py", "cls._STRING_ESCAPES", "class-attr", "_TokenizerBase.__init_subclass__")
+]
+
 end SqlglotModel.Determinism
